@@ -32,6 +32,8 @@ GROUPS = [
       replace=['gdsii_read_record', 'big_endian_swap16/big_endian_swap16_small'],
       replace_extern=['fopen', 'fclose', 'fputs'], defines={'VF_TAPE_MAX': 4096},
       bound='read-only mode; record loop closed by a loop contract; file length up to 4096 bytes'),
+    # gds_info: contract + loop contract in contracts/gds_readers.ct, harness h_gds_info; out of memory in propositional
+    # reduction (whole-struct frame of LibraryInfo); NOT claimed.
     # read_rawcells (src/rawcell.cpp): bounded harness (files <= 16 bytes) did not leave CBMC within 40 min
     # (Map<RawCell*> with string keys inlined); NOT claimed -- see DESIGN.md.  Its contract stays in contracts/gds_readers.ct.
 ]
